@@ -7,14 +7,15 @@ for d in sorted(glob.glob('/verif/seeded/*')):
     need = m['needs_to_manifest']
     missed = 'MISSED' in need
     c = m['checks_run_against_it']
-    how = ('missed at first; ' + need.split('MISSED by')[1].split(';', 1)[1].strip()) if missed else 'caught at first try'
+    how = ('missed at first; ' + need.split('MISSED by')[1].split(';', 1)[1].strip()) if missed else ('not caught on purpose: ' + need.split('NOT CAUGHT ON PURPOSE:')[1].strip() if 'NOT CAUGHT ON PURPOSE' in need else 'caught at first try')
     rows.append((name, m['breaks_property'], ', '.join(c['caught_by (quick tier, exit 1 with VIOLATION)']), ', '.join(c['silent (property still holds for them)']) or '—', how))
-nm = sum(1 for r in rows if r[4] != 'caught at first try')
+nm = sum(1 for r in rows if r[4].startswith('missed at first'))
+np_ = sum(1 for r in rows if r[4].startswith('not caught on purpose'))
 txt = "\n### 8.7 Independent seeded changes (`seeded/<name>/`: patch.diff, demo.py, notes.md, meta.json)\n\n"
 txt += ("Written by fresh sub-agents that were given only the property text and a scratch worktree of `/repo` (round 1), and in later rounds additionally a one-line\n"
         "description of the earlier changes for the same property with the instruction to find a different, subtler mechanism. Every change was confirmed by me on a\n"
         "scratch export of `/repo` HEAD (`tools/try_seed.sh`): the unedited repository suite passes with it (53 passed), its demonstration fails with it and passes\n"
-        f"without it. `tools/check_seeds.py` re-runs all of them against the listed checks. {len(rows)} changes; {len(rows) - nm} were caught by the check of their property at first try;\n"
+        f"without it. `tools/check_seeds.py` re-runs all of them against the listed checks. {len(rows)} changes; {len(rows) - nm - np_} were caught by the check of their property at first try; {np_} is deliberately not caught (it needs an input outside the documented contract, see its row);\n"
         f"{nm} were missed and led to the strengthening named in the last column (after which they are caught). `silent` lists checks that were also run and correctly\n"
         "stayed silent because their property still holds under the change.\n\n")
 txt += "| seeded change | property | caught by (quick tier) | silent | first try |\n|---|---|---|---|---|\n"
